@@ -209,10 +209,14 @@ def shard_map(fn: Callable[[Any], Any], items: List[Any], workers: Optional[int]
                 raise HarnessError("worker failed:\n" + res)
             out.append(res)
         return out
+    import concurrent.futures as cf
     ctx = multiprocessing.get_context("fork")
-    with ctx.Pool(workers) as pool:
-        results = pool.map(_call, [(fn, it) for it in items], chunksize=1)
     out = []
+    try:
+        with cf.ProcessPoolExecutor(max_workers=workers, mp_context=ctx) as pool:
+            results = list(pool.map(_call, [(fn, it) for it in items], chunksize=1))
+    except cf.process.BrokenProcessPool as e:
+        raise HarnessError(f"a worker process died (killed / out of memory / interpreter crash): {e}")
     for tag, res in results:
         if tag == "err":
             raise HarnessError("worker failed:\n" + res)
@@ -241,3 +245,12 @@ class CpuBudget:
         signal.setitimer(signal.ITIMER_VIRTUAL, 0)
         signal.signal(signal.SIGVTALRM, self._old)
         return False
+
+
+def guarded(fn, *args, seconds: float = 60.0, **kw):
+    """Call fn under a CPU-time backstop; CpuBudget.Exceeded is turned into TimeoutError (an Exception)."""
+    try:
+        with CpuBudget(seconds):
+            return fn(*args, **kw)
+    except CpuBudget.Exceeded:
+        raise TimeoutError(f"{getattr(fn, '__name__', fn)} did not finish within {seconds} CPU-seconds")
